@@ -5,8 +5,9 @@ as a predicate on the element view — no loops over siblings with flags, no `no
 two-digits-at-a-time arithmetic.
 
 `documented v e = none` means the documentation makes no promise (operands that cannot be ordered,
-a validator applied to an element kind it is not documented for, the URL validators whose
-shape is delegated to `urlparse`).  For `IsEmail` the idna conversion is an opaque input of the
+a validator applied to an element kind it is not documented for).  The URL validators are
+specified over the parts of the parse result (`Parsed`, the opaque record `urlparse` returns):
+what "valid" means in terms of those parts, with no order of checks.  For `IsEmail` the idna conversion is an opaque input of the
 view, but *where* each documented condition is applied (on the converted text) is specified.
 -/
 import Flatland.C15
@@ -99,6 +100,118 @@ def emailDocumented (nonLocal : Bool) (addr : Str) (localOk : Option Bool) (idna
      (!nonLocal || decide (2 ≤ (splitOnChar '.' d).length)) &&
      (splitOnChar '.' d).all (fun l => decide (l.length ≤ 63)))
 
+/-! ### URL validators: the documented predicate over the parsed parts -/
+
+/-- URLValidator, from its docstring.  The URL (the value without surrounding white space) must be
+    parseable ("bad_format: emitted for an unparseable URL"); its `scheme:` must be present in
+    `allowed_schemes` — every scheme is, with `('*',)`, but a URL without a scheme has none to
+    allow; and it must have no component (non-empty part) that is not present in
+    `allowed_parts`. -/
+def urlDocumented (allowedSchemes allowedParts : List Str) (r : ParseResult) : Option Bool :=
+  match r with
+  | .missing => none
+  | .raises _ => some false
+  | .ok p =>
+    some (p.six.scheme != [] &&
+          (allowedSchemes == [['*']] || allowedSchemes.contains p.six.scheme) &&
+          UrlPart.all.all (fun part => p.six.get part == [] || allowedParts.contains part.name))
+
+/-- the part names of `urlparse`'s vocabulary for HTTP-like URLs -/
+def httpVocabulary : List Str :=
+  ["scheme".toList, "netloc".toList, "path".toList, "params".toList, "query".toList,
+   "fragment".toList, "username".toList, "password".toList, "hostname".toList, "port".toList]
+
+/-- the value of each named part of a parsed URL, as the rules of `required_parts` /
+    `forbidden_parts` see it: a text, no value, or unreadable (the port as decimal text) -/
+def partTable (p : Parsed) : List (Str × PartVal) :=
+  [("scheme".toList, .str p.six.scheme), ("netloc".toList, .str p.six.netloc),
+   ("path".toList, .str p.six.path), ("params".toList, .str p.six.params),
+   ("query".toList, .str p.six.query), ("fragment".toList, .str p.six.fragment),
+   ("username".toList, p.username), ("password".toList, p.password),
+   ("hostname".toList, p.hostname),
+   ("port".toList, match p.port with
+      | .raises => .raises | .none => .none | .int i => .str (intStr i))]
+
+/-- "If value is True, the part is required.  The value may also be a sequence of strings; the
+    value of the part must be present in this collection to validate." -/
+def requiredHolds (rule : Option PartRule) (part : PartVal) : Bool :=
+  match rule, part with
+  | some .always, .str _ => true
+  | some .always, _ => false
+  | some (.oneOf []), _ => true                 -- an empty collection names nothing: no rule
+  | some (.oneOf l), .str s => l.contains s
+  | some (.oneOf _), _ => false
+  | _, _ => true
+
+/-- "If value is True, the part is forbidden and validation fails.  The value may also be a
+    sequence of strings; the value of the part must not be present in this collection." -/
+def forbiddenHolds (rule : Option PartRule) (part : PartVal) : Bool :=
+  match rule, part with
+  | some .always, .str s => s == []             -- the URL does not have the part
+  | some (.oneOf l), .str s => !l.contains s
+  | _, _ => true
+
+/-- HTTPURLValidator, from its docstring, for a URL that parses: every known part (`all_parts`)
+    is readable, satisfies its entry of `required_parts` and does not violate its entry of
+    `forbidden_parts`.  No promise when `all_parts` names something outside the vocabulary. -/
+def httpPartsDocumented (allParts : List Str) (required forbidden : List (Str × PartRule))
+    (table : List (Str × PartVal)) : Option Bool :=
+  if !allParts.all (fun k => httpVocabulary.contains k) then none
+  else some (allParts.all (fun k =>
+    match table.lookup k with
+    | some .raises => false
+    | some v => requiredHolds (required.lookup k) v && forbiddenHolds (forbidden.lookup k) v
+    | none => true))
+
+/-- … and for any element value: an element without a value has no part at all (so a required
+    part cannot be there — KF-C15-a is that the code says True); an unparseable URL is invalid -/
+def httpDocumented (allParts : List Str) (required forbidden : List (Str × PartRule))
+    (value : Option Str) (lib : UrlLib) : Option Bool :=
+  match value with
+  | none => httpPartsDocumented allParts required forbidden (httpVocabulary.map (fun k => (k, PartVal.none)))
+  | some url =>
+    match lib.urlparse url with
+    | .missing => none
+    | .raises .valueError => some false
+    | .raises _ => none                         -- "emitted for an unparseable URL": a ValueError
+    | .ok p => httpPartsDocumented allParts required forbidden (partTable p)
+
+/-- the URL's parts with the unwanted ones removed: membership in `discard_parts`, no order -/
+def keptParts (discardParts : List Str) (u : Six) : Six :=
+  let keep (part : UrlPart) : Str := if discardParts.contains part.name then [] else u.get part
+  { scheme := keep .scheme, netloc := keep .netloc, path := keep .path,
+    params := keep .params, query := keep .query, fragment := keep .fragment }
+
+/-- URLCanonicalizer, from its docstring: "Given a valid URL, re-writes it with unwanted parts
+    removed" — true unless the URL is unparseable; nothing to do without a value or without
+    unwanted parts.  No promise for part names outside the six-name vocabulary. -/
+def canonDocumented (discardParts : List Str) (value : Option Str) (lib : UrlLib) : Option Bool :=
+  if discardParts.isEmpty then some true
+  else match value with
+    | none => some true
+    | some url =>
+      match lib.urlparse url with
+      | .missing => none
+      | .raises _ => some false
+      | .ok p =>
+        if !discardParts.all (fun k => (UrlPart.all.map UrlPart.name).contains k) then none
+        else match lib.urlunparse (keptParts discardParts p.six) with
+          | .ok _ => some true
+          | .error _ => none                     -- a stand-in `urlunparse` that raises
+
+/-- the value URLCanonicalizer leaves behind: the rebuild of the kept parts when it succeeds -/
+def canonValue (discardParts : List Str) (value : Val) (lib : UrlLib) : Val :=
+  if discardParts.isEmpty then value
+  else match value with
+    | .str url =>
+      match lib.urlparse url with
+      | .ok p =>
+        (match lib.urlunparse (keptParts discardParts p.six) with
+         | .ok v => v
+         | .error _ => value)
+      | _ => value
+    | _ => value
+
 def documented (v : V) (e : View) : Option Bool :=
   match v with
   | .present => some (e.u != [])
@@ -184,8 +297,26 @@ def documented (v : V) (e : View) : Option Bool :=
     | .none => some false
     | .str addr => some (emailDocumented nonLocal addr e.localOk e.idna)
     | _ => none
-  | .urlValidator _ _ => none
-  | .httpURL _ _ => none
-  | .urlCanonicalizer _ => none
+  | .urlValidator allowedSchemes allowedParts =>
+    match e.value with
+    | .none => some false                        -- no value: not a URL
+    | .str value => urlDocumented allowedSchemes allowedParts (e.lib.urlparse (pyStrip value))
+    | _ => none
+  | .httpURL allParts required forbidden =>
+    match e.value with
+    | .none => httpDocumented allParts required forbidden none e.lib
+    | .str url => httpDocumented allParts required forbidden (some url) e.lib
+    | _ => none
+  | .urlCanonicalizer discardParts =>
+    match e.value with
+    | .none => canonDocumented discardParts none e.lib
+    | .str url => canonDocumented discardParts (some url) e.lib
+    | _ => none
+
+/-- the class of KF-C15-a: `HTTPURLValidator` on an element without a value, promised False -/
+def httpNoValue (v : V) (e : View) (d : Bool) : Bool :=
+  match v with
+  | .httpURL _ _ _ => e.value == .none && !d
+  | _ => false
 
 end Flatland.C15.Spec
